@@ -224,6 +224,19 @@ func (x *Exec) execStmt(s ast.Stmt, st *State) *State {
 	panic(engErr("unsupported statement %T at %s", s, x.pos(s)))
 }
 
+// nameBool introduces a definition for a large boolean term (path conditions).
+func (x *Exec) nameBool(t *Term) *Term {
+	if t.size <= 6 || t.Op == "var" || t.IsLit() {
+		return t
+	}
+	if t.Op == "not" && t.Args[0].Op == "var" {
+		return t
+	}
+	g := x.vc.fresh("g", BoolS)
+	x.vc.facts = append(x.vc.facts, Fact{T: mk("=", "", BoolS, nil, g, t), Def: g})
+	return g
+}
+
 func (x *Exec) takeLabel() string {
 	l := x.pendingLabel
 	x.pendingLabel = ""
@@ -362,10 +375,11 @@ func (x *Exec) execIf(s *ast.IfStmt, st *State) *State {
 	if st.guard == False {
 		return nil
 	}
+	c = x.nameBool(c)
 	thenSt := st.clone()
-	thenSt.guard = And(st.guard, c)
+	thenSt.guard = x.nameBool(And(st.guard, c))
 	elseSt := st
-	elseSt.guard = And(st.guard, Not(c))
+	elseSt.guard = x.nameBool(And(st.guard, Not(c)))
 	var a, b *State
 	if thenSt.guard != False {
 		a = x.execBlock(s.Body.List, thenSt)
@@ -564,11 +578,11 @@ func (x *Exec) runLoop(spec *LoopSpec, ord int, label string, st *State, cond fu
 	for _, inv := range spec.Inv {
 		x.assume(hst, x.evalSpecBool(inv, sc, hst))
 	}
-	c := cond(hst)
+	c := x.nameBool(cond(hst))
 	bst := hst.clone()
-	bst.guard = And(hst.guard, c)
+	bst.guard = x.nameBool(And(hst.guard, c))
 	exitSt := hst
-	exitSt.guard = And(hst.guard, Not(c))
+	exitSt.guard = x.nameBool(And(hst.guard, Not(c)))
 	lc := &loopCtx{label: label}
 	f.loops = append(f.loops, lc)
 	var after *State
@@ -935,10 +949,10 @@ func (x *Exec) execSwitch(s *ast.SwitchStmt, st *State, label string) *State {
 				conds = append(conds, x.evalCond(e, rest))
 			}
 		}
-		c := Or(conds...)
+		c := x.nameBool(Or(conds...))
 		hit := rest.clone()
-		hit.guard = And(rest.guard, c)
-		rest.guard = And(rest.guard, Not(c))
+		hit.guard = x.nameBool(And(rest.guard, c))
+		rest.guard = x.nameBool(And(rest.guard, Not(c)))
 		if hit.guard != False {
 			for _, bs := range cl.Body {
 				if br, ok := bs.(*ast.BranchStmt); ok && br.Tok == token.FALLTHROUGH {
